@@ -36,7 +36,7 @@ theorem declarators_variables (env : Env) (hnf : env.faultAt = none) (F D : Nat)
     Yields env.cfg w.buf (ds.flatMap (fun p => p.1.toks) ++ last.1.toks) b' → ds.length + 1 ≤ n →
     ∃ (wF : World) (evs : List Event) (doxs : List (Option String)) (l : LocRef) (blkF : Block),
       interp env (loopN n (loc, dox) (declaratorBody F (core F (D + 1)) pt {} .none false false)) w = (wF, .ok ()) ∧
-      SigEq b' wF.buf ∧ wF.stack = blkF :: rest ∧ blkF.id = blkId ∧ blkF.hdr = hdr ∧ blkF.loc = l ∧
+      SigEq b' wF.buf ∧ wF.stack = blkF :: rest ∧ blkF.id = blkId ∧ blkF.hdr = hdr ∧ blkF = { blk with loc := l } ∧
       wF.events = w.events ++ evs ∧ doxs.length = ds.length + 1 ∧
       evs.map (·.kind) = varKinds (ds ++ [last]) doxs ∧ (∀ e ∈ evs, e.stateId = blkId ∧ e.parentId = rest.head?.map (·.id)) ∧
       (∀ d, dox = some d → doxs.head? = some (some d)) ∧
@@ -157,7 +157,7 @@ def firstDtor (ds : List (Dtor × DType)) (last : Dtor × DType) : Dtor :=
 
 /-- **`T d1 , … , dn ;` from `_parse_declarations`**, outside a class, with an active visitor that
     never raises -/
-theorem parseDeclarations_variables (env : Env) (hnf : env.faultAt = none) (F D : Nat) (tok : CTok) (doxygen : Option String)
+theorem parseDeclarations_variables_loc (env : Env) (hnf : env.faultAt = none) (F D : Nat) (tok : CTok) (doxygen : Option String)
     (pairs : List (Tok × Tok)) (ds : List (Dtor × DType)) (last : Dtor × DType) (w : World) (b0 b' : Buf)
     (blk : Block) (rest : List Block) (hstack : w.stack = blk :: rest) (hk : blk.hdr.kind ≠ .cls) (hmu : w.muted = false)
     (hty : tok.type = "NAME") (htv : identVal tok.value = true)
@@ -176,7 +176,8 @@ theorem parseDeclarations_variables (env : Env) (hnf : env.faultAt = none) (F D 
       wF.events = w.events ++ evs ∧ doxs.length = ds.length + 1 ∧
       evs.map (·.kind) = varKinds (ds ++ [last]) doxs ∧ (∀ e ∈ evs, e.stateId = blk.id ∧ e.parentId = rest.head?.map (·.id)) ∧
       (∀ d, doxygen = some d → doxs.head? = some (some d)) ∧
-      wF.delivered = w.delivered + (ds.length + 1) ∧ wF.anon = w.anon ∧ wF.muted = false ∧ wF.nextId = w.nextId := by
+      wF.delivered = w.delivered + (ds.length + 1) ∧ wF.anon = w.anon ∧ wF.muted = false ∧ wF.nextId = w.nextId ∧
+      ∃ l, blkF = { blk with loc := l } := by
   have hidv := htv
   simp only [identVal, Bool.and_eq_true, Bool.not_eq_true', bne_iff_ne, ne_eq] at htv
   obtain ⟨⟨⟨hpv, hnc⟩, _⟩, _⟩ := htv
@@ -229,11 +230,11 @@ theorem parseDeclarations_variables (env : Env) (hnf : env.faultAt = none) (F D 
     have ht2ty : t2.type = (firstDtor ds last).head.type := by rw [hty2, hty1]
     have ht2v : t2.value = (firstDtor ds last).head.value := by rw [hv2, hv1]
     -- the declarator loop on the stream with the pushed-back copy
-    obtain ⟨wF, evs, doxs, l, blkF, hiF, hsigF, hstF, hidF, hhdrF, _, hevF, hdl, hkinds, hids, hdox, hdlF, hanF, hmuF, hnxF⟩ :
+    obtain ⟨wF, evs, doxs, l, blkF, hiF, hsigF, hstF, hidF, hhdrF, hlF, hevF, hdl, hkinds, hids, hdox, hdlF, hanF, hmuF, hnxF⟩ :
         ∃ (wF : World) (evs : List Event) (doxs : List (Option String)) (l : LocRef) (blkF : Block),
           interp env (loopN F (LocRef.tok tok.sidx, doxygen) (declaratorBody F (core F (D + 1 + 1))
             (.type (.mk (.name tok.value none :: pairs.map (fun p => .name p.2.value none)) none false) false false) {} .none false false)) w2 = (wF, .ok ()) ∧
-          SigEq b' wF.buf ∧ wF.stack = blkF :: rest ∧ blkF.id = blk.id ∧ blkF.hdr = blk.hdr ∧ blkF.loc = l ∧
+          SigEq b' wF.buf ∧ wF.stack = blkF :: rest ∧ blkF.id = blk.id ∧ blkF.hdr = blk.hdr ∧ blkF = { blk with loc := l } ∧
           wF.events = w2.events ++ evs ∧ doxs.length = ds.length + 1 ∧
           evs.map (·.kind) = varKinds (ds ++ [last]) doxs ∧ (∀ e ∈ evs, e.stateId = blk.id ∧ e.parentId = rest.head?.map (·.id)) ∧
           (∀ d, doxygen = some d → doxs.head? = some (some d)) ∧
@@ -277,9 +278,33 @@ theorem parseDeclarations_variables (env : Env) (hnf : env.faultAt = none) (F D 
         | nil => simp [varKinds]
         | cons dx dxs => simp [varKinds, plainVariable, hxv']
     refine ⟨wF, evs, doxs, blkF, ?_, hsigF, hstF, hidF, hhdrF, by rw [hevF, hsl2.events], hdl, hkinds, hids, hdox,
-      by rw [hdlF, hsl2.delivered], by rw [hanF, hsl2.anon], hmuF, by rw [hnxF, hsl2.nextId]⟩
+      by rw [hdlF, hsl2.delivered], by rw [hanF, hsl2.anon], hmuF, by rw [hnxF, hsl2.nextId], l, hlF⟩
     unfold parseDeclarations
     simp only [bind, interp_bind, core_parseType, hi1, Option.bind, typenameOf, strTruthy, PQName.classkey, Bool.false_eq_true,
       ↓reduceIte, pure, interp, Bool.not_false, P.tokenIfVal, hi2, htop2, validate_empty, hiF]
+
+theorem parseDeclarations_variables (env : Env) (hnf : env.faultAt = none) (F D : Nat) (tok : CTok) (doxygen : Option String)
+    (pairs : List (Tok × Tok)) (ds : List (Dtor × DType)) (last : Dtor × DType) (w : World) (b0 b' : Buf)
+    (blk : Block) (rest : List Block) (hstack : w.stack = blk :: rest) (hk : blk.hdr.kind ≠ .cls) (hmu : w.muted = false)
+    (hty : tok.type = "NAME") (htv : identVal tok.value = true)
+    (hall : ∀ p ∈ pairs, p.1.type = "DBL_COLON" ∧ p.2.type = "NAME" ∧ plainVal p.2.value = true)
+    (hy0 : Yields env.cfg w.buf (pairs.flatMap (fun p => [p.1, p.2])) b0)
+    (hops : opsHeadOk (firstDtor ds last).ops = true) (hopsv : ∀ o ∈ (firstDtor ds last).ops, o.value ≠ "auto")
+    (hds : ∀ p ∈ ds, p.1.OK (.type (.mk (.name tok.value none :: pairs.map (fun p => .name p.2.value none)) none false) false false) p.2 ∧
+      p.1.sep.type = "," ∧ p.1.ops.length + 1 ≤ F)
+    (hlast : last.1.OK (.type (.mk (.name tok.value none :: pairs.map (fun p => .name p.2.value none)) none false) false false) last.2)
+    (hsep : last.1.sep.type = ";") (hlen : last.1.ops.length + 1 ≤ F)
+    (hy : Yields env.cfg b0 (ds.flatMap (fun p => p.1.toks) ++ last.1.toks) b')
+    (hF : pairs.length + 2 ≤ F) (hF2 : ds.length + 1 ≤ F) :
+    ∃ (wF : World) (evs : List Event) (doxs : List (Option String)) (blkF : Block),
+      interp env (parseDeclarations F (core F (D + 1 + 1)) tok doxygen) w = (wF, .ok ()) ∧
+      SigEq b' wF.buf ∧ wF.stack = blkF :: rest ∧ blkF.id = blk.id ∧ blkF.hdr = blk.hdr ∧
+      wF.events = w.events ++ evs ∧ doxs.length = ds.length + 1 ∧
+      evs.map (·.kind) = varKinds (ds ++ [last]) doxs ∧ (∀ e ∈ evs, e.stateId = blk.id ∧ e.parentId = rest.head?.map (·.id)) ∧
+      (∀ d, doxygen = some d → doxs.head? = some (some d)) ∧
+      wF.delivered = w.delivered + (ds.length + 1) ∧ wF.anon = w.anon ∧ wF.muted = false ∧ wF.nextId = w.nextId := by
+  obtain ⟨wF, evs, doxs, blkF, h1, h2, h3, h4, h5, h6, h7, h8, h9, h10, h11, h12, h13, h14, _⟩ :=
+    parseDeclarations_variables_loc env hnf F D tok doxygen pairs ds last w b0 b' blk rest hstack hk hmu hty htv hall hy0 hops hopsv hds hlast hsep hlen hy hF hF2
+  exact ⟨wF, evs, doxs, blkF, h1, h2, h3, h4, h5, h6, h7, h8, h9, h10, h11, h12, h13, h14⟩
 
 end Cxx
